@@ -200,6 +200,19 @@ pub fn run(ctx: &Ctx, rep: &mut Report) {
             extra_jobs.push((extra_seeds.len() - 1, Job { seed: 0, kind: "split-per-trait-and-shared-bound", entry: Entry::Attr, attr: a1.clone(), item: format!("#[derive_ex({a2})] {}", s.item), traits: s.traits.clone(), map: id.clone() }));
             extra_jobs.push((extra_seeds.len() - 1, Job { seed: 0, kind: "split-per-trait-and-shared-bound", entry: Entry::Derive, attr: String::new(), item: format!("#[derive_ex({a1})] #[derive_ex({a2})] {}", s.item), traits: s.traits.clone(), map: id.clone() }));
         }
+        // (b3) a per-trait bound WITHOUT `..` stops the resolution: the shared bound of the same list is not consulted
+        //      for that trait, so moving the trait into a list of its own (without the shared bound) changes nothing
+        if n >= 2 && shared.is_empty() && tp.iter().all(|p| !p.1.contains('(')) && s.item.contains("<T") {
+            for stop in ["bound(T: Mk)", "bound()"] {
+                let merged: Vec<String> = (0..n).map(|i| if i == 0 { format!("{}({})", tp[i].1, stop) } else { tp[i].1.clone() }).collect();
+                let shared_b = "bound(T: Mq)";
+                extra_seeds.push(Seed { origin: format!("{}+stopping-per-trait-bound", s.origin), attr: format!("{}, {}", merged.join(", "), shared_b), traits: s.traits.clone(), item: s.item.clone(), entry: Entry::Attr, is_impl: false });
+                let a1 = merged[0].clone();
+                let a2 = format!("{}, {}", merged[1..].join(", "), shared_b);
+                extra_jobs.push((extra_seeds.len() - 1, Job { seed: 0, kind: "split-stopping-per-trait-bound", entry: Entry::Attr, attr: a1.clone(), item: format!("#[derive_ex({a2})] {}", s.item), traits: s.traits.clone(), map: id.clone() }));
+                extra_jobs.push((extra_seeds.len() - 1, Job { seed: 0, kind: "split-stopping-per-trait-bound", entry: Entry::Derive, attr: String::new(), item: format!("#[derive_ex({a1})] #[derive_ex({a2})] {}", s.item), traits: s.traits.clone(), map: id.clone() }));
+            }
+        }
         // (c) sub-lists containing t
         if n >= 2 {
             let helpers = helper_names(&s.item);
